@@ -148,6 +148,7 @@ def build(ctx):
                 clause="atom lists of two molecules are compared with a shape-safe equality (numpy == raises or broadcasts for lists of different length)",
                 detail=[ast.unparse(n) for n in cmp_nodes], fn=f_sum, fallback=shapes_fallback)
 
+    translated_copy(ctx)
     unwrap_instances(ctx, mod)
     connectivity_instances(ctx, mod, lambda m=None: fixed_native_cases())
     bounded(ctx)
@@ -303,6 +304,47 @@ def unwrap_instances(ctx, mod):
     ctx.attempt("crystal.Crystal.unit_cell_molecules/ensures/path_reversed", lambda: run_instance("path_reversed", [(0, 2), (1, 2)], [cA, cB]), replay=native_replay, fn=f_ucm)
 
 
+def translated_copy(ctx):
+    """Molecule.translated (used to place unit-cell molecules in other cells): the result is shifted, the receiver — which may be a memoised unit-cell
+    molecule — is not, and the two share no array."""
+    MM = "chmpy.core.molecule"
+    f_tr = ctx.fn(MM, "Molecule.translated")
+    I = ctx.interp()
+    mmod = source.load_module(MM)
+    Mcls = I.class_of(mmod, "Molecule")
+    P0 = real_matrix("p", 2, 3)
+    t = reals("t", 3)
+
+    def replay(m=None):
+        from chmpy.core.molecule import Molecule
+        from chmpy import Element
+        mol = Molecule([Element["O"], Element["H"]], np.array([[0.0, 0.0, 0.0], [0.96, 0.0, 0.0]]))
+        before = mol.positions.copy()
+        out = mol.translated(np.array([1.0, 2.0, 3.0]))
+        bad = (not np.array_equal(mol.positions, before)) or (not np.allclose(out.positions, before + [1.0, 2.0, 3.0])) or np.shares_memory(out.positions, mol.positions)
+        return {"native_inputs": {"molecule": "OH", "translation": [1.0, 2.0, 3.0]}, "reproduced": bool(bad), "observed": {"receiver_after": mol.positions.tolist(), "result": out.positions.tolist()}}
+
+    def ob():
+        def thunk(I2, a, kw):
+            mol = Obj(Mcls, {"positions": farr(P0), "elements": [None, None], "properties": {}, "bonds": None, "labels": None})
+            out = I2.call(I2.getattr(mol, "translated"), [farr(t)])
+            return mol, out
+        res = I.explore(thunk)
+        for k, r_ in enumerate(res):
+            sfx = "" if len(res) == 1 else f"/path{k}"
+            if r_.kind != "return":
+                ctx.prove("molecule.Molecule.translated/ensures/fresh_shifted_copy" + sfx, r_.pc, z3.BoolVal(False), clause="returns normally", fn=f_tr, replay=replay)
+                continue
+            mol, out = r_.value
+            a0, a1 = mol.fields["positions"], out.fields["positions"]
+            goals = [z3.BoolVal(out is not mol and a1 is not a0 and a1.data is not a0.data)]
+            goals += [z(a0.data[i, j]) == P0[i][j] for i in range(2) for j in range(3)]
+            goals += [z(a1.data[i, j]) == P0[i][j] + t[j] for i in range(2) for j in range(3)]
+            ctx.prove("molecule.Molecule.translated/ensures/fresh_shifted_copy" + sfx, r_.pc, conj(goals), fn=f_tr, replay=replay,
+                      clause="the result is a distinct molecule with positions + t in its own array; the receiver's positions are unchanged")
+    ctx.attempt("molecule.Molecule.translated/ensures/fresh_shifted_copy", ob, replay=replay, fn=f_tr)
+
+
 def connectivity_instances(ctx, mod, native_replay):
     """unit_cell_connectivity executed on symbolic instances with two unit-cell atoms.  The slab is a modular contract (reference cell first,
     then one block of n_uc rows per neighbouring cell, `cell` giving the block's cell index); the KD-tree query is modelled exactly
@@ -324,7 +366,11 @@ def connectivity_instances(ctx, mod, native_replay):
         t.pts = pts
         return t
 
-    def run(tag, nblocks, far_hyp):
+    def run(tag, nblocks, far_hyp, override=False):
+        r_lib = dict(r)
+        if override:
+            # the caller overrides the radius of oxygen (keyword covalent_radii): the library value is another, unrelated positive number
+            r_lib[8] = z3.Real("r_O_library")
         cells = [[z3.Int(f"c{b}_{i}") for i in range(3)] for b in range(nblocks)]
         nrow = 2 + 2 * nblocks
         FP = real_matrix("fp", nrow, 3)
@@ -362,7 +408,7 @@ def connectivity_instances(ctx, mod, native_replay):
         def elem(I2, *a_):
             n_ = a_[-1]
             ecls = I2.class_of(source.load_module("chmpy.core.element"), "Element")
-            return Obj(ecls, {"cov": r[int(n_)], "atomic_number": int(n_)})
+            return Obj(ecls, {"cov": r_lib[int(n_)], "atomic_number": int(n_)})
         tag_cart = {}
 
         def to_cart(I2, self_, coords):
@@ -381,12 +427,15 @@ def connectivity_instances(ctx, mod, native_replay):
         def thunk(I2, a, kw):
             uc = shell(I2, "chmpy.crystal.unit_cell", "UnitCell")
             cr = Obj(CRcls, {"unit_cell": uc})
-            out = I2.call(I2.getattr(cr, "unit_cell_connectivity"), [], {"tolerance": tol})
+            kw_ = {"tolerance": tol}
+            if override:
+                kw_["covalent_radii"] = {8: r[8]}
+            out = I2.call(I2.getattr(cr, "unit_cell_connectivity"), [], kw_)
             return out, cr
         dpos = [z3.Real(f"d_{a_}_{b_}") >= 0 for a_ in range(nrow) for b_ in range(a_ + 1, nrow)]
         # statement's hypothesis: no atom is bonded to its own periodic image
         own = [z3.Real(f"d_{a_}_{2 + 2 * b + a_}") >= 2 * r[(8, 1)[a_]] + tol for a_ in range(2) for b in range(nblocks)]
-        pre = [tol >= 0, r[8] > 0, r[1] > 0] + dpos + own + far_hyp(lambda a_, b_: z3.Real(f"d_{min(a_, b_)}_{max(a_, b_)}"), r, tol)
+        pre = [tol >= 0, r[8] > 0, r[1] > 0] + ([r_lib[8] > 0] if override else []) + dpos + own + far_hyp(lambda a_, b_: z3.Real(f"d_{min(a_, b_)}_{max(a_, b_)}"), r, tol)
         res = I.explore(thunk, pre=pre)
         lab = f"crystal.Crystal.unit_cell_connectivity/ensures/{tag}"
         if not res:
@@ -425,6 +474,9 @@ def connectivity_instances(ctx, mod, native_replay):
 
     # A: one neighbouring block, every pair may or may not be in range (skip logic in full generality)
     ctx.attempt("crystal.Crystal.unit_cell_connectivity/ensures/one_block", lambda: run("one_block", 1, lambda d, r_, t_: []), replay=native_replay, fn=f_ucc)
+    # A': the same with the radius of one element overridden by the caller (covalent_radii=...): bonding AND the neighbour search use the overridden radius
+    ctx.attempt("crystal.Crystal.unit_cell_connectivity/ensures/one_block_radius_override", lambda: run("one_block_radius_override", 1, lambda d, r_, t_: [], override=True),
+                replay=native_replay, fn=f_ucc)
     # B: two neighbouring blocks; only the pairs (0, image of 1) may be in range (the others are beyond 2 max(r) + tol by hypothesis): the stored cell is the block's own
     def far(d, r_, t_):
         big = 2 * z3.If(r_[8] >= r_[1], r_[8], r_[1]) + t_
